@@ -70,11 +70,13 @@ func c01CheckDecode(c C01Dec) *pbt.Violation {
 	}
 	var name string
 	var err error
+	noiseNBT()
 	pv, stack := pbt.Try(func() {
 		d := nbt.NewDecoder(r)
 		d.NetworkFormat(c.Network)
 		name, err = d.Decode(dst.Interface())
 	})
+	noiseNBT()
 	if pv != nil {
 		return pbt.V(pbt.PanicKey("nbt.decode", stack), "decoding a well-formed document", "Decode into %s panicked: %v\n%s", typ, pv, stack)
 	}
@@ -188,11 +190,13 @@ func goEncode(c GoCase) goEncoded {
 	}
 	var buf bytes.Buffer
 	res := goEncoded{val: v}
+	noiseNBT()
 	res.panicked, res.stack = pbt.Try(func() {
 		e := nbt.NewEncoder(&buf)
 		e.NetworkFormat(c.Network)
 		res.err = e.Encode(arg, string(c.Name))
 	})
+	noiseNBT()
 	res.out = buf.Bytes()
 	return res
 }
